@@ -36,7 +36,7 @@ pub(crate) fn parse_key(raw: &str) -> Result<crate::Key, TomlError> {
     use prelude::*;
 
     let b = new_input(raw);
-    let result = key::simple_key.parse(b.clone());
+    let result = winnow::combinator::terminated(key::simple_key, end_of_input).parse(b.clone());
     match result {
         Ok((raw, key)) => {
             Ok(crate::Key::new(key).with_repr_unchecked(crate::Repr::new_unchecked(raw)))
@@ -49,7 +49,7 @@ pub(crate) fn parse_key_path(raw: &str) -> Result<Vec<crate::Key>, TomlError> {
     use prelude::*;
 
     let b = new_input(raw);
-    let result = key::key.parse(b.clone());
+    let result = winnow::combinator::terminated(key::key, end_of_input).parse(b.clone());
     match result {
         Ok(mut keys) => {
             for key in &mut keys {
@@ -65,7 +65,7 @@ pub(crate) fn parse_value(raw: &str) -> Result<crate::Value, TomlError> {
     use prelude::*;
 
     let b = new_input(raw);
-    let parsed = value::value.parse(b.clone());
+    let parsed = winnow::combinator::terminated(value::value, end_of_input).parse(b.clone());
     match parsed {
         Ok(mut value) => {
             // Only take the repr and not decor, as its probably not intended
@@ -75,6 +75,19 @@ pub(crate) fn parse_value(raw: &str) -> Result<crate::Value, TomlError> {
         }
         Err(e) => Err(TomlError::new(e, b)),
     }
+}
+
+// What may follow a stand-alone key or value: nothing.  `Parser::parse` checks this too, but
+// its error carries no context and so renders as an empty message.
+fn end_of_input(input: &mut prelude::Input<'_>) -> prelude::ModalResult<()> {
+    use prelude::*;
+
+    winnow::combinator::eof
+        .void()
+        .context(StrContext::Expected(StrContextValue::Description(
+            "end of input",
+        )))
+        .parse_next(input)
 }
 
 pub(crate) mod prelude {
